@@ -73,7 +73,10 @@ static int op_keygen(void)
 	if (sm2_key_generate(&k) != 1) return 0;
 	sm2_z256_point_to_bytes(&k.public_key, pub);
 	eph_add(pub, 32); out_add(pub, 64);
-	g_oo->valid = 1;
+	/* a generated key is valid if its private part lies in [1, n-2] and the public part belongs to it */
+	SM2_KEY chk;
+	uint8_t pub2[64];
+	g_oo->valid = sm2_key_set_private_key(&chk, k.private_key) == 1 && sm2_z256_point_to_bytes(&chk.public_key, pub2) == 1 && !memcmp(pub, pub2, 64);
 	return 1;
 }
 static int op_sign(void)
@@ -555,7 +558,8 @@ static void entropy_gen(Plan *p, uint64_t base_seed, uint64_t variant, int tier)
 		p->defect = EM_BURST;
 		p->efail_node = node;
 		p->eburst_at = (int64_t)rng_below(&v, (uint32_t)N);
-		p->eburst_k = 1 + rng_below(&v, 3);
+		/* short bursts walk the retry path of rejection sampling; 100+ identical rejected draws exhaust it */
+		p->eburst_k = rng_chance(&v, 1, 4) ? (int64_t[]){ 99, 100, 101, 130 }[rng_below(&v, 4)] : 1 + rng_below(&v, 3);
 		p->eburst_val = 0xff;   /* all-ones draws are >= every group order: they drive the rejection-sampling retry path */
 	}
 }
